@@ -11,6 +11,9 @@
 import TE.Driver.Proto
 import TE.Model.TExpr
 import TE.Gen.Kernels
+import TE.Gen.KernelsAgg
+import TE.Gen.KernelsRank
+import TE.Gen.KernelsCurve
 namespace TE.Driver
 open TE TE.TX
 
@@ -50,6 +53,12 @@ partial def showKernelVal : TX.Val → Except Err String
   | .str _ => .error .other
   | .none => .error .other
 
+/-- a kernel of the form `10 * log10(arg)` is run up to the uninterpreted function: the request answers `arg`
+    (the harness applies `10 * log10` itself), as the models of TE/Model/Agg.lean do. -/
+def upToUfun : TExpr → TExpr
+  | .arith .mul (.int 10) (.ufun _ a) => a
+  | t => t
+
 def runKernel (k : Kernel) (a : Args) : Except Err String :=
   match k with
   | .untranslated _ _ => .error .notImpl
@@ -59,11 +68,14 @@ def runKernel (k : Kernel) (a : Args) : Except Err String :=
     | .ok env =>
       -- every parameter must be supplied (the harness passes defaults explicitly)
       if params.all (fun p => env.any (·.1 == p)) then do
-        let v ← eval env body
+        let v ← eval env (upToUfun body)
         showKernelVal v
       else .error .other
 
+/-- `gen.<kernel>` for the kernels of C04 (TE/Gen/Kernels.lean), C07 (TE/Gen/KernelsAgg.lean), C08
+    (TE/Gen/KernelsRank.lean) and C05 (TE/Gen/KernelsCurve.lean).  Free variables of a generated term that are not parameters (`finfo.tiny`: a constant
+    of the storage dtype, which is not modelled) are supplied by the request like parameters. -/
 def kernelFns : List (String × (Args → Except Err String)) :=
-  Gen.kernels.map fun k => ("gen." ++ k.name, runKernel k)
+  (Gen.kernels ++ Gen.Agg.kernels ++ Gen.Rank.kernels ++ Gen.Curve.kernels).map fun k => ("gen." ++ k.name, runKernel k)
 
 end TE.Driver
